@@ -5,5 +5,6 @@ CONSTANTS
   ZeroLenSlice = FALSE
   Verbose = FALSE
 INVARIANT Accepted
+INVARIANT Refined
 INVARIANT Progress
 CHECK_DEADLOCK FALSE
